@@ -52,9 +52,9 @@ Ctxs == CtxsC
 Paths == PathsC
 Writes == WritesC
 
-VARIABLES stack, fvals, val, aborted, wlog, made, n, hist
-vars == <<stack, fvals, val, aborted, wlog, made, n, hist>>
-View == <<stack, fvals, val, aborted, wlog, made, n>>
+VARIABLES stack, fvals, val, aborted, wlog, n, hist
+vars == <<stack, fvals, val, aborted, wlog, n, hist>>
+View == <<stack, fvals, val, aborted, wlog, n>>
 
 None == "none"
 NoWrite == [obj |-> None, code |-> None, st |-> None, auth |-> FALSE]
@@ -115,7 +115,6 @@ Init ==
   /\ val = [o \in Objs |-> 0]
   /\ aborted = FALSE
   /\ wlog = NoWrite
-  /\ made = {}
   /\ n = 0
   /\ hist = <<>>
 
@@ -125,20 +124,20 @@ Call(c) ==
   /\ ~aborted /\ Len(stack) < MaxDepth
   /\ c.kind = "cross" => KindOf[c.pkg] = "r"
   /\ stack' = Append(stack, Push(Top, c, EphemeralIsRealm))
-  /\ UNCHANGED <<fvals, val, aborted, wlog, made>>
+  /\ UNCHANGED <<fvals, val, aborted, wlog>>
   /\ Step([act |-> "Call", kind |-> c.kind, pkg |-> c.pkg, recv |-> c.recv, minter |-> c.minter])
 
 Return ==
   /\ ~aborted /\ Len(stack) > 1
   /\ stack' = SubSeq(stack, 1, Len(stack) - 1)
-  /\ UNCHANGED <<fvals, val, aborted, wlog, made>>
+  /\ UNCHANGED <<fvals, val, aborted, wlog>>
   /\ Step([act |-> "Return"])
 
 Mint ==   \* the running frame evaluates a FuncLit: the closure is stamped with the storage context
   /\ ~aborted /\ Cardinality(fvals) < MaxFvals
   /\ C(Top.code, Top.st) \notin fvals
   /\ fvals' = fvals \cup {C(Top.code, Top.st)}
-  /\ UNCHANGED <<stack, val, aborted, wlog, made>>
+  /\ UNCHANGED <<stack, val, aborted, wlog>>
   /\ Step([act |-> "Mint", pkg |-> Top.code, minter |-> Top.st])
 
 Write(o) ==
@@ -150,16 +149,14 @@ Write(o) ==
      ELSE /\ aborted' = TRUE              \* readonly panic: the transaction fails, nothing persists
           /\ val' = [x \in Objs |-> 0]
           /\ wlog' = NoWrite
-  /\ UNCHANGED <<stack, fvals, made>>
+  /\ UNCHANGED <<stack, fvals>>
   /\ Step([act |-> "Write", obj |-> o])
 
 \* composite literal / new() / conversion producing a value of a type declared in realm p: allowed only while
 \* the storage context is p (Allocator.checkConstructionTime, doOpConvert case 2); otherwise the tx aborts
 Construct(p) ==
-  /\ ~aborted /\ KindOf[p] = "r"
-  /\ IF Top.st = p
-     THEN made' = made \cup {[typ |-> p, code |-> Top.code]} /\ UNCHANGED <<aborted, val, wlog>>
-     ELSE aborted' = TRUE /\ val' = [x \in Objs |-> 0] /\ wlog' = NoWrite /\ UNCHANGED made
+  /\ ~aborted /\ p = Victim /\ Top.st # p     \* at home it is a no-op for this model; elsewhere the tx aborts
+  /\ aborted' = TRUE /\ val' = [x \in Objs |-> 0] /\ wlog' = NoWrite
   /\ UNCHANGED <<stack, fvals>>
   /\ Step([act |-> "Construct", pkg |-> p])
 
@@ -170,8 +167,9 @@ StorageImpliesAuthority == \A i \in 1..Len(stack) : stack[i].st = Victim => stac
 AttackerTextNeverAuthorised == \A i \in 1..Len(stack) : KindOf[stack[i].code] \in {"r", "e"} /\ stack[i].code # Victim => stack[i].st # Victim
 NoForeignWrite == (wlog.obj # None /\ RealObj(wlog.obj) /\ OwnerOf[wlog.obj] = Victim) => wlog.auth
 NothingPersistsFromAbort == aborted => \A o \in Objs : val[o] = 0
-\* a value of a victim-declared type is never constructed by code written outside the victim
-ConstructOnlyAtHome == \A m \in made : m.typ = Victim => m.code = Victim
+\* construction of a victim-declared value succeeds only in a frame whose storage context is the victim
+\* (guard of Construct); such a frame is never attacker-declared realm / script code
+ConstructOnlyAtHome == \A i \in 1..Len(stack) : (stack[i].st = Victim /\ KindOf[stack[i].code] # "p") => stack[i].code = Victim
 RealmCodeRunsAtHome == \A i \in 1..Len(stack) : RealmDeclared(stack[i].code, EphemeralIsRealm) => stack[i].st = stack[i].code
 
 \* ------------------------------------------------------------------ SHAPES
@@ -206,7 +204,7 @@ Pick ==
           IN /\ stack' = ch
              /\ hist' = <<r>>
              /\ n' = 1
-  /\ UNCHANGED <<fvals, val, aborted, wlog, made>>
+  /\ UNCHANGED <<fvals, val, aborted, wlog>>
 
 ShapeWrite ==
   /\ n = 1
@@ -217,7 +215,7 @@ ShapeWrite ==
              /\ UNCHANGED aborted
         ELSE /\ aborted' = TRUE /\ UNCHANGED <<val, wlog>>
   /\ n' = 2
-  /\ UNCHANGED <<stack, fvals, hist, made>>
+  /\ UNCHANGED <<stack, fvals, hist>>
 
 ShapeNext == Pick \/ ShapeWrite
 
